@@ -603,6 +603,68 @@ pub fn ipfix_def(options: bool, max_fields: usize) -> BoxedStrategy<Def> {
         .boxed()
 }
 
+/// a variation of `base`; `other` supplies fields to append
+fn vary(proto: Proto, base: &Def, other: &Def, how: u8, pos: u8, w: u8) -> Def {
+    let mut d = base.clone();
+    let lo = if d.kind == Kind::Options { d.scope_n as usize } else { 0 };
+    let n = d.fields.len();
+    match how {
+        0 => {
+            // same element sequence, one width changed
+            if n > lo {
+                let i = lo + (pos as usize * (n - lo) >> 8);
+                let f = &mut d.fields[i];
+                if f.len != VARLEN && f.len != 0 {
+                    let dt = if f.ent.is_some() { FieldDataType::Vec } else { dtype(proto, f) };
+                    let mut nw = width_for(&dt, w);
+                    if nw == f.len {
+                        nw = width_for(&dt, w.wrapping_add(97));
+                    }
+                    f.len = nw;
+                }
+            }
+        }
+        1 => {
+            // strict prefix: trailing fields dropped
+            if n > lo + 1 {
+                let keep = lo + 1 + (pos as usize * (n - lo - 1) >> 8);
+                d.fields.truncate(keep.max(1));
+            }
+        }
+        2 => {
+            // extension: fields appended
+            let extra: Vec<FieldSpec> = other.fields.iter().skip(other.scope_n as usize).take(1 + (pos as usize % 3)).cloned().collect();
+            d.fields.extend(extra);
+        }
+        3 => {
+            // two fields swapped
+            if n > lo + 1 {
+                let i = lo + (pos as usize * (n - lo - 1) >> 8);
+                d.fields.swap(i, i + 1);
+            }
+        }
+        _ => {
+            // same widths, one element number changed to another of the same data type family
+            if n > lo {
+                let i = lo + (pos as usize * (n - lo) >> 8);
+                if let Some(o) = other.fields.get(other.scope_n as usize) {
+                    if d.fields[i].len != VARLEN && d.fields[i].ent.is_none() && o.ent.is_none() {
+                        let dt = dtype(proto, o);
+                        let lw = legal_widths(&dt);
+                        if lw.is_empty() || lw.contains(&d.fields[i].len) {
+                            d.fields[i].ie = o.ie;
+                        }
+                    }
+                }
+            }
+        }
+    }
+    if proto == Proto::Ipfix {
+        fix_zero_len(&mut d.fields);
+    }
+    d
+}
+
 /// template pool: `n_ids` ids shared by both protocols, 1..=3 alternative definitions each.
 /// `options_mask` decides per id whether it is an options template (kind is fixed per id
 /// unless `mixed_kinds`).
@@ -623,7 +685,22 @@ pub fn pool(n_ids: std::ops::RangeInclusive<usize>, max_fields: usize, mixed_kin
                             ipfix_def(o, max_fields)
                         }
                     };
-                    (0..alts).map(alt).collect::<Vec<_>>()
+                    ((0..alts).map(alt).collect::<Vec<_>>(), vec((any::<u8>(), any::<u8>(), any::<u8>()), alts))
+                        .prop_map(move |(mut defs, derive)| {
+                            // later alternatives are often *variations* of the first one (what a
+                            // re-configured exporter sends): one field's width changed, trailing
+                            // fields dropped, fields appended, two fields swapped - so that
+                            // redefinitions differ from the cached definition in one aspect only
+                            let proto = if v9 { Proto::V9 } else { Proto::Ipfix };
+                            for j in 1..defs.len() {
+                                let (d, pos, w) = derive[j];
+                                if d < 150 && defs[0].kind == defs[j].kind {
+                                    let v = vary(proto, &defs[0], &defs[j], d % 5, pos, w);
+                                    defs[j] = v;
+                                }
+                            }
+                            defs
+                        })
                 })
             };
             (
